@@ -43,6 +43,7 @@ type Decls struct {
 	usesFP   bool
 	usesQuant bool
 	heapSorts map[string]string
+	trackReads map[string]readDep // when non-nil, heap reads are recorded (for opaque spec functions)
 }
 
 func newDecls(mode Mode) *Decls {
@@ -418,4 +419,13 @@ func sortedKeys[V any](m map[string]V) []string {
 	}
 	sort.Strings(ks)
 	return ks
+}
+
+// arrayRange returns the range sort of "(Array Dom Rng)".
+func arrayRange(s string) string {
+	p, ok := parseSx(s)
+	if !ok || p.head() != "Array" || len(p.kids) != 3 {
+		return s
+	}
+	return p.kids[2].String()
 }
